@@ -53,7 +53,7 @@ func init() {
 }
 
 type plan struct {
-	Kind    string `json:"kind"` // S1 natural, S2 done-before-launcher-listens, S3 slow-daemon, S4 launcher-then-daemon
+	Kind    string `json:"kind"` // S1 natural, S2 done-before-launcher-listens, S3 slow-daemon, S4 launcher-then-daemon, S0 the handler exits before Done() (a fault; the launches AFTER it are what is checked)
 	Markers int    `json:"markers"`
 	Name    string `json:"name"`
 	Group   int    `json:"group"` // launches with the same group number run concurrently
@@ -88,6 +88,9 @@ func waitGlob(pattern string, d time.Duration) string {
 
 // daemonBody is the handler that runs in the daemon process.
 func daemonBody(registered string) {
+	// the launcher's pid, taken while the launcher certainly exists (after
+	// Done() it may be gone already and Getppid() would name the reaper)
+	lpid := os.Getppid()
 	dir := filepath.Join(os.Getenv("PW_BASE"), registered)
 	os.MkdirAll(filepath.Join(os.Getenv("PW_BASE"), "pids"), 0755)
 	os.WriteFile(filepath.Join(os.Getenv("PW_BASE"), "pids", strconv.Itoa(os.Getpid())), []byte(registered), 0644)
@@ -97,6 +100,11 @@ func daemonBody(registered string) {
 	}
 	os.WriteFile(filepath.Join(dir, "daemon.info.tmp"), []byte(fmt.Sprintf("%d %d", os.Getpid(), os.Getppid())), 0644)
 	os.Rename(filepath.Join(dir, "daemon.info.tmp"), filepath.Join(dir, "daemon.info"))
+	if p.Kind == "S0" {
+		// the fault: this daemon dies before it ever calls Done()
+		fmt.Fprintln(os.Stderr, "daemon", registered, "cannot start")
+		os.Exit(3)
+	}
 	for i := 0; i < p.Markers; i++ {
 		os.WriteFile(filepath.Join(dir, fmt.Sprintf("marker.%d", i)), []byte("x"), 0644)
 	}
@@ -118,7 +126,6 @@ func daemonBody(registered string) {
 	os.Rename(filepath.Join(dir, "d-done.tmp"), filepath.Join(dir, "d-done"))
 	// a daemon goes on working after the hand-over: once its launcher is gone
 	// it writes to its standard streams, as any logging daemon would
-	lpid := os.Getppid()
 	for i := 0; i < 3000 && os.Getppid() == lpid && syscall.Kill(lpid, 0) == nil; i++ {
 		time.Sleep(time.Millisecond)
 	}
@@ -136,12 +143,17 @@ type violation struct {
 }
 
 type outcome struct {
-	Plan   plan       `json:"plan"`
-	Peers  []plan     `json:"group_plans,omitempty"` // the whole burst, for replay
-	Viol   *violation `json:"violation,omitempty"`
-	Infra  string     `json:"infra,omitempty"`
-	Events []string   `json:"events"`
-	WallMs int64      `json:"wall_ms"`
+	// Prior: the failed launches (S0) this process had performed before
+	Prior []plan `json:"prior_failed_launches,omitempty"`
+	// History: every group of launches this process had performed before (only
+	// attached to failing outcomes that come after a failed launch)
+	History [][]plan   `json:"history,omitempty"`
+	Plan    plan       `json:"plan"`
+	Peers   []plan     `json:"group_plans,omitempty"` // the whole burst, for replay
+	Viol    *violation `json:"violation,omitempty"`
+	Infra   string     `json:"infra,omitempty"`
+	Events  []string   `json:"events"`
+	WallMs  int64      `json:"wall_ms"`
 }
 
 // alive: the process exists and is not a zombie (the sandbox's pid 1 may not
@@ -287,11 +299,16 @@ func runOne(base string, p plan, barrier *sync.WaitGroup) (o outcome) {
 		select {
 		case res = <-done:
 		case <-time.After(6 * time.Second):
-			fail("launch-did-not-return", "Launch has not returned 6s after the daemon called Done()")
+			fail("launch-did-not-return", "Launch has not returned 6s after the daemon called Done() (schedule S0: after it exited)")
 			return
 		}
 	}
 	ev("Launch returned pid=%d err=%v", res.pid, res.err)
+	if p.Kind == "S0" {
+		// the handler never called Done(): the property promises nothing about
+		// this call except (checked above) that the caller gets control back
+		return
+	}
 	// what the daemon says about itself
 	var lpid int
 	if b, err := os.ReadFile(filepath.Join(dir, "daemon.info")); err == nil {
@@ -404,6 +421,8 @@ func main() {
 		var rf struct {
 			Plan      plan      `json:"plan"`
 			Plans     []plan    `json:"plans"`
+			Prior     []plan    `json:"prior"`
+			History   [][]plan  `json:"history"`
 			Violation violation `json:"violation"`
 		}
 		if err := json.Unmarshal(b, &rf); err != nil {
@@ -420,6 +439,26 @@ func main() {
 			rounds = 40
 		}
 		for round := 0; round < rounds; round++ {
+			// the failed launches that came before, in this process, first
+			// (the complete history of the process, when the short form did not reproduce)
+			for _, g := range rf.History {
+				for _, o := range runGroup(base, g) {
+					if o.Infra != "" {
+						fmt.Println("REPLAY infra:", o.Infra)
+						os.RemoveAll(base)
+						os.Exit(2)
+					}
+				}
+			}
+			for _, pp := range rf.Prior {
+				for _, o := range runGroup(base, []plan{pp}) {
+					if o.Infra != "" || o.Viol != nil {
+						fmt.Println("REPLAY infra: the earlier failing launch did not go as recorded:", o.Infra, o.Viol)
+						os.RemoveAll(base)
+						os.Exit(2)
+					}
+				}
+			}
 			for _, o := range runGroup(base, group) {
 				if o.Infra != "" {
 					fmt.Println("REPLAY infra:", o.Infra)
@@ -450,6 +489,12 @@ func main() {
 	group := 0
 	for len(plans) < *n {
 		group++
+		if r.next(5) == 0 && len(plans) > 0 {
+			// a fault: a launch whose handler exits before Done(), alone; what
+			// it leaves behind in the caller meets the launches that follow
+			plans = append(plans, plan{Kind: "S0", Name: fmt.Sprintf("h%d", r.next(nHandlers)), Group: group})
+			group++
+		}
 		width := 1
 		burst := false
 		switch r.next(4) {
@@ -467,12 +512,29 @@ func main() {
 		}
 	}
 	var outs []outcome
+	var prior []plan
+	var history [][]plan
 	for i := 0; i < len(plans); {
 		j := i
 		for j < len(plans) && plans[j].Group == plans[i].Group {
 			j++
 		}
 		res := runGroup(base, plans[i:j])
+		for k := range res {
+			res[k].Prior = prior
+			if res[k].Viol != nil && len(prior) > 0 {
+				res[k].History = history
+			}
+		}
+		history = append(history[:len(history):len(history)], plans[i:j])
+		if plans[i].Kind == "S0" {
+			prior = append(append([]plan{}, prior...), plans[i])
+		}
+		if os.Getenv("PW_TRACE") != "" {
+			for _, o := range res {
+				fmt.Fprintf(os.Stderr, "%s %s group=%d wall=%dms viol=%v\n", o.Plan.Kind, o.Plan.Name, o.Plan.Group, o.WallMs, o.Viol)
+			}
+		}
 		outs = append(outs, res...)
 		i = j
 		nv := 0
@@ -512,7 +574,7 @@ func main() {
 		}
 		if o.Viol != nil {
 			st.Outcomes = append(st.Outcomes, o)
-		} else if len(st.Samples) < 2 && o.Plan.Kind != "S1" {
+		} else if len(st.Samples) < 2 && o.Plan.Kind != "S1" && o.Plan.Kind != "S0" {
 			st.Samples = append(st.Samples, o)
 		}
 	}
